@@ -342,7 +342,7 @@ def run(ctx):
 
     # spec -> impl
     mism_path = ctx.path("mismatches.ndjson")
-    rep = vlib.run_harness(binp, ["replay", tpl_path, cases_path, mism_path])
+    rep = vlib.run_harness(binp, ["replay", tpl_path, cases_path, mism_path], hang_path=mism_path + ".hang")
     ctx.note("replay: %s" % json.dumps(rep))
     violations = []
     planted_seen = False
